@@ -33,6 +33,27 @@ Theorem chunked_bytes_roundtrip :
     (flat_map snd chunks, true, false).
 Proof. exact dechunk_roundtrip. Qed.
 
+(** An HTTP/2 upload without content-length that ends with a trailer block (DATA frames, then
+    HEADERS with END_STREAM) is written toward an HTTP/1.1 backend — one chunk per non-empty DATA
+    frame, the last-chunk line, one line per trailer field, the closing empty line; the bytes
+    the in-process tie compares with what the real `pkawa::handle_trailer` and kawa's H1
+    converter produce — as a chunked message the strict decoder reads as exactly the
+    concatenated payloads, complete, with nothing after its end. *)
+Theorem h2_upload_trailers_exact :
+  forall frames fields fuel,
+    Forall frame_ok frames -> Forall field_ok fields -> length frames < fuel ->
+    dechunk fuel (h2_upload_trailers_as_h1 frames true false fields) = (concat frames, true, false).
+Proof. exact h2_upload_trailers_exact_proof. Qed.
+
+(** The same message with [end_chunk] set on the end-of-body flags (the empty line written
+    before the fields instead of after them) does not end where its bytes end: the trailer
+    lines are stray bytes after a complete message. *)
+Theorem h2_upload_trailers_end_chunk_refuted :
+  forall frames kv fields fuel,
+    Forall frame_ok frames -> length frames < fuel ->
+    dechunk fuel (h2_upload_trailers_as_h1 frames true true (kv :: fields)) = (concat frames, false, false).
+Proof. exact h2_upload_trailers_end_chunk_refuted_proof. Qed.
+
 Theorem framing_injective :
   forall c1 c2 b1 b2, chunked_encode c1 b1 = chunked_encode c2 b2 -> b1 = b2.
 Proof. exact framing_injective_proof. Qed.
@@ -149,6 +170,9 @@ Example framing_nonvacuous :
   /\ dechunk 9 [51; 59; 97; 13; 10; 120]%N = ([], false, true)
   /\ dechunk 9 (h2_upload_as_h1 [[120; 121; 122]%N; []] true true) = ([120; 121; 122]%N, true, false)
   /\ dechunk 9 (h2_upload_as_h1 [[120; 121; 122]%N; []] true false) = ([120; 121; 122]%N, false, false)
+  /\ h2_upload_trailers_as_h1 [[120; 121]%N] true false [([97]%N, [98]%N)]
+     = [50; 13; 10; 120; 121; 13; 10; 48; 13; 10; 97; 58; 32; 98; 13; 10; 13; 10]%N
+  /\ h2_upload_trailers_as_h1 [[120; 121]%N] false false [([97]%N, [98]%N)] = [120; 121]%N
   /\ r_sent (relay_run 2 (relay_init [1; 2; 3]%N) [Ingest 5; Convert 1; Flush 9; Flush 1]) = [1]%N
   /\ h2_prepare 10 5%Z 3 [BChunk [1; 2; 3; 4; 5; 6; 7]%N; BEnd]
      = ([mkF [1; 2; 3]%N 0 false; mkF [4; 5]%N 0 false], [BChunk [6; 7]%N; BEnd], 0%Z)
